@@ -52,6 +52,13 @@ CHECKS += [
      "note": "PARTIAL w.r.t. the property text: the canonicity theorem excludes types containing map-backed dictionaries (their sorted/deduplicated re-emission is covered by the correspondence and the Go-side stability oracle, and by the dict_fold_sorted lemma). Templates modelled by hand; agreement shown on the enumerated inputs. Packages generated with --checkLengthSanity=false get only gentle mutations (their readers allocate `count` elements by design). No axioms."},
 ]
 
+CHECKS += [
+    {"id": "C11",
+     "technique": "Coq proof (format-description lemmas + round trip + canonicity of the reference model) + extracted reference codec run against freshly generated Go code on random schemas",
+     "text": "The extracted Coq model is the independent reference codec (no code shared with /repo). Theorems make it readable as the documented TL1 format (little-endian primitives, boxed = tag then bare, union = active variant's tag then fields, fields in order gated by field-mask bits, vectors = count then elements, tuples sized by parameter, string length/padding via C33) and show it reads exactly what it writes (round trip; canonicity for dictionary-free schemas). Check: on random schemas, values (model- and FillRandom-generated) and valid/mutated/random byte strings are processed by generated Go code and by the reference; bytes, verdicts, consumed lengths compared.",
+     "note": "PARTIAL: (1) the reference's schema IR is dumped from the real kernel, so type resolution is shared with the generator (not re-derived independently); (2) the TL2 half of the property (varlen sizes, presence masks, bit arrays, counted arrays, dictionaries) is carried by the TL2 model of C03/C13 and the primitive layouts by C33, not by this check; (3) canonicity theorem excludes map-backed dictionaries. Known finding F6 (shared with C01). No axioms."},
+]
+
 _claimed = {c["id"] for c in CHECKS}
 _reasons = {
     "C32": "PHP serializers: no PHP/KPHP interpreter exists in the sandbox and nothing can be installed, so generated PHP cannot be executed; neither a correspondence check nor a failing-input search can exist (DESIGN.md section 8)",
